@@ -134,6 +134,9 @@ class C10(Check):
         return f"{what}:{ctx}"
 
     def gen_cases(self, tier: str, seed: int):
+        for pn in self.S3_POINTERS:
+            for op in ("load", "append", "append_lose_again"):
+                yield {"backend": "s3", "pointer": pn, "op": op}
         cur = "v4-0123abcd.metadata.json"
         for hist in HISTORIES:
             names = [g[0] for g in pointer_grammar(cur, cur, "x" if hist.startswith("orphan") else None, 4, tier)]
@@ -141,9 +144,84 @@ class C10(Check):
                 for op in OPS:
                     yield {"hist": hist, "pointer": pn, "op": op}
 
+    S3_POINTERS = ["absent", "empty", "garbage", "legacy_zero", "missing_lower_version", "missing_same_version",
+                   "missing_higher_version", "current_nl"]
+
+    def _s3(self, case: Any, res: CaseResult) -> None:
+        """the same property on the conditional-write S3 backend (commit numbering comes from the hint there)"""
+        import datashard as ds
+        from vf.fakes3 import FakeS3Store, S3Env
+
+        ip = Interposer().install(locks=False)
+        try:
+            store = FakeS3Store()
+            with S3Env(store) as env:
+                rng = rng_for(0, "c10s3")
+                h = history.History("", rng, backend="s3", store=store, s3env=env, table_path="wh/t10", ip=ip)
+                for op in [("append", 2), ("append", 1), ("delete_append", 1)]:
+                    out = h.apply(op)
+                    assert out["ok"], out
+                    h.observe(op, True)
+                tv = h.view()
+                C = {"uuid": tv.uuid, "ids": sorted(s.id for s in tv.snapshots), "rows": tv.current_rows()}
+                cur = h.pointers[-1]
+                n = int(cur.split("-")[0][1:])
+                key = ("bkt", "wh/t10/" + reader.HINT)
+                content = {"absent": None, "empty": b"", "garbage": b"\x00\xffnot a name", "legacy_zero": b"0",
+                           "missing_lower_version": f"v{n - 2}-0badcafe.metadata.json".encode(),
+                           "missing_same_version": f"v{n}-0badcafe.metadata.json".encode(),
+                           "missing_higher_version": f"v{n + 5}-0badcafe.metadata.json".encode(),
+                           "current_nl": cur.encode() + b"\n"}[case["pointer"]]
+                if content is None:
+                    store.objects.pop(key, None)
+                else:
+                    store.put_object(Bucket="bkt", Key=key[1], Body=content)
+                wit = {"backend": "s3", "pointer_case": case["pointer"], "op": case["op"], "committed_pointer": cur}
+                res.evals += 1
+                res.count("cases_judged")
+                res.count("s3_cases")
+                exp_rows = list(C["rows"])
+                sig = f"s3:{case['pointer']}"
+                try:
+                    t = ds.load_table("wh/t10")
+                    if case["op"] in ("append", "append_lose_again"):
+                        before = reader.metadata_versions(h.blobs())
+                        t.append_records(tables.rows([9001]))
+                        res.count("appends_after_damage")
+                        exp_rows = sorted(exp_rows + reader.canon_rows(tables.rows([9001])))
+                        newptr = reader.pointer_target(h.blobs())
+                        m = reader._META_RE.match(newptr or "")
+                        maxv = max(v for v, _n in before)
+                        if m and int(m.group(1)) <= maxv and case["pointer"] != "current_nl":
+                            res.violation(f"commit-version-not-above-existing:{sig}",
+                                          f"append after pointer damage published {newptr} although v{maxv} exists on storage: "
+                                          f"a later pointer loss resolves to the older file", wit)
+                            return
+                        if case["op"] == "append_lose_again":
+                            store.objects.pop(key, None)
+                    t2 = ds.load_table("wh/t10")
+                    md = t2.metadata_manager.refresh()
+                    rows = reader.canon_rows(t2.scan())
+                except Exception as e:  # noqa
+                    res.violation(f"op-raises:{case['op']}:{sig}", f"{type(e).__name__}: {str(e)[:200]}", wit)
+                    return
+                if md.table_uuid != C["uuid"]:
+                    res.violation(f"reinitialised:{sig}", "table uuid changed", wit)
+                elif not set(C["ids"]) <= {s.snapshot_id for s in md.snapshots}:
+                    res.violation(f"snapshots-lost:{sig}", "committed snapshots missing after recovery", wit)
+                elif rows != exp_rows:
+                    res.violation(f"rows-changed:{sig}", f"{len(rows)} rows, expected {len(exp_rows)}", wit)
+                else:
+                    res.count("recovered_by_scan")
+                    res.key(["s3", case["pointer"], case["op"]])
+        finally:
+            ip.uninstall()
+
     def run_case(self, case: Any, res: CaseResult, tier: str) -> None:
         import datashard as ds
 
+        if case.get("backend") == "s3":
+            return self._s3(case, res)
         ip = Interposer().install(locks=False)
         try:
             with Scratch("c10") as d:
